@@ -106,25 +106,26 @@ type evalImage struct {
 }
 
 type world struct {
-	cfg          *Cfg
-	out          *core.Outcome
-	dig          core.Digest
-	log          []*entry
-	states       []*model.KV       // states[p] = model after p entries
-	exp          []model.ExpResult // exp[p] = expected result of entry p (0-based)
-	leader       []uint64          // leader[p] = expected leader index after p entries
-	reps         []*replica
-	results      map[uint64]*applied
-	iters        map[int]*iterSlot
-	step         int
-	nextIndex    uint64
-	cache        *pebble.Cache
-	ioErr        *ioErrPlan
-	depth        int
-	propOverride string
-	sawLI        bool
-	seenImages   map[uint64]bool
-	deferred     *core.Violation
+	cfg                   *Cfg
+	out                   *core.Outcome
+	dig                   core.Digest
+	log                   []*entry
+	states                []*model.KV       // states[p] = model after p entries
+	exp                   []model.ExpResult // exp[p] = expected result of entry p (0-based)
+	leader                []uint64          // leader[p] = expected leader index after p entries
+	reps                  []*replica
+	results               map[uint64]*applied
+	iters                 map[int]*iterSlot
+	step                  int
+	nextIndex             uint64
+	cache                 *pebble.Cache
+	ioErr                 *ioErrPlan
+	depth                 int
+	propOverride          string
+	sawLI                 bool
+	seenImages            map[uint64]bool
+	deferred              *core.Violation
+	imgReplica, imgFormat int
 }
 
 type ioErrPlan struct {
